@@ -173,7 +173,8 @@ def arc_length_3point(p_start: NPPointType, p_btw: NPPointType, p_end: NPPointTy
 
     denom = asqr * bsqr - adotb * adotb
     # https://develop.openfoam.com/Development/openfoam/-/blob/master/src/OpenFOAM/primitives/Scalar/floatScalar/floatScalar.H
-    if norm(denom) < 1e-18:
+    # (denom is the squared sine of the angle between the vectors times asqr * bsqr: a test that does not depend on model size)
+    if denom <= 1e-18 * asqr * bsqr:
         raise ValueError("Invalid arc points!")
 
     fact = 0.5 * (bsqr - adotb) / denom
